@@ -328,6 +328,18 @@ func vc02Secret(r *vRand) []byte {
 	for i := range b {
 		b[i] = cs[r.intn(len(cs))]
 	}
+	return vc02PlainSecret(b)
+}
+
+// vc02PlainSecret: a configuration value is subject to "$(VAR)" (GetStringOptionWithEnv) and "%(name)s"
+// (goconf) substitution — documented features of the configuration file, not of the authentication;
+// the generated secrets stay clear of both openers so that the configured secret is the generated one.
+func vc02PlainSecret(b []byte) []byte {
+	for i := 1; i < len(b); i++ {
+		if b[i] == '(' && (b[i-1] == '$' || b[i-1] == '%') {
+			b[i] = ')'
+		}
+	}
 	return b
 }
 
@@ -380,6 +392,7 @@ func vc02GenCfg(r *vRand) *vc02Cfg {
 		case i > 0 && r.chance(1, 4):
 			sec = append([]byte{}, secrets[0]...) // differing in one character
 			sec[r.intn(len(sec))] ^= 1
+			sec = vc02PlainSecret(sec)
 		}
 		secrets = append(secrets, sec)
 		c.backends = append(c.backends, vc02Backend{id: fmt.Sprintf("b%d", i+1), url: layout[i], secret: sec})
